@@ -141,8 +141,10 @@ def replay(path):
     rp = os.path.join(vlib.scratch(), "r.ndjson")
     open(rp, "w").write(json.dumps(rec["case"]) + "\n")
     fresh = os.path.join(vlib.scratch(), "fresh.ndjson")
-    vlib.run_zv1(zv, "session", ["-replay", rp], out=fresh)
-    v, _ = vlib.validate_trace("SessionTrace.tla", "SessionTrace.cfg", fresh)
+    fam, module, cfg = {"entry": ("entry", "EntryTrace.tla", "EntryTrace.cfg"),
+                        "vmfx": ("vmfx", "EffectTrace.tla", "EffectTrace.cfg")}.get(rec.get("family"), ("session", "SessionTrace.tla", "SessionTrace.cfg"))
+    vlib.run_zv1(zv, fam, ["-replay", rp], out=fresh)
+    v, _ = vlib.validate_trace(module, cfg, fresh)
     bad = [i for i in v if v[i][0] == "bad"]
     for i in bad:
         print("VIOLATION property=%s replay=%s" % (PROP, path))
